@@ -27,6 +27,8 @@ CONVS = [
     ("int", int, r"\d{1,%d}" % INT_MAX_DIGITS, 50, ["1", "12", "007", "0"]),
     ("int(fixed_digits=2)", int, r"\d{2}", 50, ["12", "07"]),
     ("int(fixed_digits=3)", int, r"\d{3}", 50, ["123", "007"]),
+    # the same option given positionally (the first positional argument of the int converter is fixed_digits)
+    ("int(3)", int, r"\d{3}", 50, ["123", "007", "002"]),
     ("float", float, r"\d+\.\d+", 50, ["1.5", "12.0"]),
     ("any(a,bc)", None, r"(?:a|bc)", 100, ["a", "bc"]),
     ("any(ab,x1,12)", None, r"(?:ab|x1|12)", 100, ["ab", "x1", "12"]),
